@@ -71,11 +71,12 @@ def main():
         meta["needs_to_manifest"] = a.needs
     dst = os.path.join(VERIF, "seeded", a.seed_id)
     os.makedirs(dst, exist_ok=True)
-    shutil.copy(patch, os.path.join(dst, "patch.diff"))
-    shutil.copy(demo, os.path.join(dst, "demo.py"))
-    notes = os.path.join(a.src, "notes.md")
-    if os.path.exists(notes):
-        shutil.copy(notes, os.path.join(dst, "notes.md"))
+    if os.path.realpath(a.src) != os.path.realpath(dst):
+        shutil.copy(patch, os.path.join(dst, "patch.diff"))
+        shutil.copy(demo, os.path.join(dst, "demo.py"))
+        notes = os.path.join(a.src, "notes.md")
+        if os.path.exists(notes):
+            shutil.copy(notes, os.path.join(dst, "notes.md"))
     old = {}
     mp = os.path.join(dst, "meta.json")
     if os.path.exists(mp):
